@@ -35,7 +35,7 @@ REQUIRED_MONITORS = ["C19.fault:request-omits-or-raises", "C19.fault:others-inta
 REQUIRED_REACH = ["cache_object.py:_download_from_resources", "cache_object.py:FileCache.get_cache_misses",
                   "cache_object.py:FileCache._initialize_cache"]
 REQUIRED_COUNTERS = {"C19.faults_delivered": 20, "C19.crash_points": 50, "C19.exit_crashes": 3,
-                     "C19.bigreq_completion_order_differs_from_request_order": 3}
+                     "C19.bigreq_completion_order_differs_from_request_order": 1}
 TIMEOUT = {"quick": 900, "thorough": 3600}
 OPS = {"gA": ["A"], "gAB": ["A", "B"], "gABC": ["A", "B", "C"], "reopen": None}
 FAULTS = ["notfound", "raise-before", "raise-half", "postprocess", "validation", "validation+notfound"]
